@@ -219,4 +219,14 @@ theorem every_connection (cfg : Cfg) (es : List Ev) (k : Nat) : GoodB cfg (bytes
     · rw [bytesOn_append, hother k hk, List.append_nil]
       exact hgood k
 
+theorem gb_run (cfg : Cfg) (es : List Ev) : GB (run cfg es) := by
+  unfold run
+  suffices ∀ (acc : State × List Out), GB acc →
+      GB (es.foldl (fun acc e => let r := step cfg acc.1 e; (r.1, acc.2 ++ r.2)) acc) from
+    this ({}, []) ⟨rfl, fun _ _ => rfl⟩
+  induction es with
+  | nil => intro acc h; exact h
+  | cons e es ih => intro acc h; simp only [List.foldl_cons]; exact ih _ (gb_step cfg acc e h).1
+
+
 end Hpfeeds.BlkSession
